@@ -98,6 +98,34 @@ impl Scenario for Net2 {
         let th = |t: &p::handshake::n2n::VersionTable| t.values.iter().map(|(k, v)| k * 31 + v.network_magic % 1000).sum::<u64>();
         cx.tr.ev("tables", &[ours.values.len() as u64, theirs.values.len() as u64, th(&ours), th(&theirs)]);
         cx.tr.note(|| format!("responder {:?}\ninitiator {:?}", ours, theirs));
+        // a third of the runs: the same peer id had a connection before, negotiated something else on it,
+        // and comes back - after the old connection's Disconnected notice, or overtaking it (the
+        // listener's accept future is polled before the pool's disconnect future)
+        if cx.ch.chance("prelude.reconnect", 1, 3) {
+            let theirs0 = gen_table(&mut cx.ch, &magics);
+            beh.handle_io(InterfaceEvent::Connected(id.clone()));
+            beh.handle_io(InterfaceEvent::Recv(id.clone(), vec![AnyMessage::Handshake(p::handshake::Message::Propose(theirs0))]));
+            while let std::task::Poll::Ready(Some(out)) = beh.poll_next_unpin(&mut tcx) {
+                if let BehaviorOutput::InterfaceCommand(InterfaceCommand::Send(to, m)) = out {
+                    if cx.ch.chance("prelude.sent", 3, 4) {
+                        beh.handle_io(InterfaceEvent::Sent(to, m));
+                    }
+                }
+            }
+            match cx.ch.draw("prelude.end", 3) {
+                0 => beh.handle_io(InterfaceEvent::Disconnected(id.clone())),
+                1 => {
+                    beh.handle_io(InterfaceEvent::Error(id.clone(), pallas_network2::InterfaceError::Other("reset".into())));
+                    beh.handle_io(InterfaceEvent::Disconnected(id.clone()));
+                }
+                _ => {
+                    beh.handle_io(InterfaceEvent::Error(id.clone(), pallas_network2::InterfaceError::Other("reset".into())));
+                    cx.st.inc("fault.reconnect_overtakes_disconnect_notice");
+                }
+            }
+            while let std::task::Poll::Ready(Some(_)) = beh.poll_next_unpin(&mut tcx) {}
+            cx.st.inc("fault.peer_reconnects_with_other_table");
+        }
         beh.handle_io(InterfaceEvent::Connected(id.clone()));
         // schedule noise around the proposal: housekeeping, other traffic of the same peer
         if cx.ch.chance("pre.housekeeping", 1, 3) {
@@ -302,7 +330,7 @@ pub fn def() -> CheckDef {
         real: vec!["pallas_network2 ResponderBehavior + HandshakeResponder::try_accept_handshake", "protocol::handshake::State::apply", "pallas_network handshake::{N2NClient,N2CClient}::handshake <-> handshake::{N2NServer,N2CServer}::handshake over two real Plexers"],
         stub: vec!["the initiator is a simulated peer proposing a seeded table", "Interface (events injected directly)"],
         assumptions: vec!["a refusal while a common version exists (e.g. magic mismatch at the highest common version) is allowed: the statement constrains acceptances and the disjoint case only"],
-        required: vec!["probe.accepted", "probe.disjoint_refused", "probe.refused_with_common_version", "fault.proposal_split_across_segments"],
+        required: vec!["probe.accepted", "probe.disjoint_refused", "probe.refused_with_common_version", "fault.proposal_split_across_segments", "fault.reconnect_overtakes_disconnect_notice"],
         env_nondeterminism: "HashMap iteration order of both version tables (seeded through the getrandom shim); housekeeping/piggy-backed traffic around the proposal",
     }
 }
